@@ -134,7 +134,13 @@ func (backupManager *BackupManager) DoNativeBackup() error {
 		return err
 	}
 	defer file.Close()
-	since, err := backupManager.store.database.Backup(file, backupManager.lastID)
+	// the next run continues after the newest version that was committed when this run started. Backup
+	// returns the newest version it has seen, but it reads the key space with several snapshots taken at
+	// different moments: a commit that happens while the backup starts can be newer than one snapshot and
+	// older than that maximum, and would never be backed up. Everything up to the version below is visible
+	// to every snapshot; what is committed later is written again by the next run.
+	since := backupManager.store.database.MaxVersion()
+	_, err = backupManager.store.database.Backup(file, backupManager.lastID)
 	if err != nil {
 		return err
 	}
